@@ -127,6 +127,19 @@ pub fn jobs(tier: Tier) -> Vec<Job> {
         let run = RunCfg::parallel(2);
         v.push(pipeline_job("c05-live", c, &run, FINE, if tier == Tier::Quick { 2 } else { 3 }, true));
     }
+    // An attempt that started speculatively, failed on a stale read and finishes exactly when the
+    // commit boundary reaches it is neither fatal nor parked behind a predecessor: it must be
+    // re-offered. (The window of finding F2; the C04 check owns the result, this one the liveness.)
+    {
+        let d = super::c04::gate_driver(spec, false);
+        for mode in [FaultMode::Persistent, FaultMode::Once] {
+            let plan = FaultPlan { key: Some(d.stale_keys[0].clone()), mode };
+            let mut j = super::c04::fault_job(&d, plan, false, 2, FOCUS_ATTEMPT, if tier == Tier::Quick { 4 } else { 5 }, true);
+            j.family = "c05-stale-error-at-head";
+            j.id = j.id.replace("c04-fault", "c05-stale-error-at-head");
+            v.push(j);
+        }
+    }
     // a custom precompile panics inside a worker (or on the sequential path): the original panic
     // must reach the caller
     {
